@@ -353,6 +353,7 @@ func checkC08(p *Prog, r *Report) {
 	ruleMarkDiscipline(p, r, "R-M", "C08", "panos", []string{".needed", ".nameOnDevice"}, 14)
 	ruleMarkDiscipline(p, r, "R-M", "C08", "nsx", []string{".needed", ".nameOnDevice"}, 6)
 	ruleMarkDiscipline(p, r, "R-M", "C08", "cisco", []string{"cmd.needed", "cmd.ready", "cmd.toDelete"}, 18)
+	ruleMarkDiscipline(p, r, "R-M", "C08", "cisco", []string{"cisco.cmd.name", "cisco.cmd.seq"}, 16)
 	r.Trusted = []string{"go/ssa, call graph", "audited guard sets in tables/guards.tsv"}
 	r.NotDec = "referential validity of a concrete script; line-number arithmetic beyond the agreement of the constants; duplicate ACL entries"
 }
